@@ -193,12 +193,66 @@ def oracle(ctx, docs):
     return n
 
 
+def unique_word_part(ctx, n):
+    """Constructs whose words C03's general accounting does not model (footnote texts, directive contents): every marker word
+    zqN of the document must occur in the token tree exactly once."""
+    import mistune
+    from mistune.directives import FencedDirective, RSTDirective, Admonition, Figure, Image, TableOfContents
+    cnt = 0
+    mds = {"footnotes": mistune.create_markdown(renderer=None, plugins=["footnotes", "table"]),
+           "fenced": mistune.create_markdown(renderer=None, plugins=["def_list", "footnotes", FencedDirective([Admonition(), Figure(), Image(), TableOfContents()])]),
+           "rst": mistune.create_markdown(renderer=None, plugins=["def_list", "footnotes", RSTDirective([Admonition(), Figure(), Image(), TableOfContents()])])}
+    for _ in range(n):
+        k = [0]
+        def w():
+            k[0] += 1
+            return "zq%d" % k[0]
+        r = ctx.rng.random()
+        if r < 0.4:
+            # a note with continuation lines of varying indentation (1-3 blanks) and further paragraphs
+            lines = ["text[^n] %s" % w(), "", "[^n]: %s" % w()]
+            for _ in range(ctx.rng.randint(1, 4)):
+                if ctx.rng.random() < 0.3:
+                    lines.append("")
+                lines.append(" " * ctx.rng.randint(1, 3) + w() + " " + w())
+            kind, doc = "footnotes", "\n".join(lines) + "\n\nafter %s\n" % w()
+        else:
+            follow = ctx.rng.choice([lambda: "- %s\n- %s" % (w(), w()), lambda: "> %s" % w(), lambda: "# %s" % w(), lambda: "```%s\n%s\n```" % (w(), w()), lambda: "%s\n\n%s" % (w(), w()),
+                                     lambda: "1. %s" % w(), lambda: "***\n%s" % w(), lambda: "%s\n: %s" % (w(), w())])()
+            body = w() + " caption\n" + (follow if ctx.rng.random() < 0.7 else "\n" + follow)
+            name = ctx.rng.choice(["figure", "note", "warning"])
+            title = "p.png" if name == "figure" else w()
+            if ctx.rng.random() < 0.5:
+                kind = "fenced"
+                doc = "````{%s} %s\n%s\n````\n" % (name, title, body)
+            else:
+                kind = "rst"
+                doc = ".. %s:: %s\n\n%s\n" % (name, title, "\n".join(("   " + l) if l else "" for l in body.split("\n")))
+        try:
+            toks = mds[kind](doc)
+        except Exception:
+            continue
+        cnt += 1
+        dump = json.dumps(toks)
+        counts = [len(re.findall(r"zq%d(?![0-9])" % i, dump)) for i in range(1, k[0] + 1)]
+        if kind != "footnotes" and name == "figure" and not any(counts) and '"figcaption"' not in dump:
+            ctx.fail("figure-without-leading-paragraph", "a figure directive whose content does not start with a paragraph drops its whole content: %r" % doc, {"plugins": [kind], "doc": doc})
+            continue
+        for i in range(1, k[0] + 1):
+            c = counts[i - 1]
+            if c != 1:
+                ctx.fail("marker-word-%s:%s" % ("lost" if c == 0 else "duplicated", kind), "the word zq%d occurs %d times in the token tree of %r (%s)" % (i, c, doc, kind), {"plugins": [kind], "doc": doc, "count": c})
+                break
+    return cnt
+
+
 def run(ctx):
     ctx.broken += common.proof_stage(ctx, THEOREMS)
     docs = [doc(ctx.rng) for _ in range(3000 if ctx.quick() else 40000)]
     common.model_tie(ctx, docs, 'core', 'doc', limit=(1200 if ctx.quick() else 12000))
     common.model_tie(ctx, docs[::3], 'core-hardwrap', 'doc', limit=(400 if ctx.quick() else 4000))
     n = oracle(ctx, docs)
+    n += unique_word_part(ctx, 600 if ctx.quick() else 8000)
     if ctx.broken and not ctx.failures:
         ctx.notes.append("search mode entered")
         n += oracle(ctx, [doc(ctx.rng) for _ in range(40000)])
